@@ -81,6 +81,18 @@ def work(shard, tier):
                         cells.add((name, cls, repr(sorted(opts.items()))))
                         if len(samples) < 2 and rng.random() < 0.01:
                             samples.append({'module': name, 'class': cls, 'input': x, 'result': o1[1]})
+        # table-driven spellings (court names, aliases, region prefixes ...): every module string constant
+        # substituted for the constant found in a valid number; identity presentation only
+        for x in C.constant_variants(name, C.corpus(name), rng, cap=1000):
+            o1, o2 = check_one(name, mod, x, {}, 'constant-variant', viols)
+            evals += 1
+            if o2 is not None:
+                evals += 1
+                counters['accepted'] += 1
+                counters['refed'] += 1
+                if o1[1] != x:
+                    nonc += 1
+                    cells.add((name, 'constant-variant', x[:12]))
         if nonc:
             reached.append(name)
     return {'evaluations': evals, 'nontrivial': len(cells), 'violations': list(viols.values()), 'samples': samples,
